@@ -17,7 +17,7 @@ fn splice(src: &str, s: usize, e: usize, with: &str) -> String {
 pub fn whitespace(t: &mut Tape) -> String {
     const WS: &[&str] = &[
         " ", "  ", "\n", "\n  ", "\n    ", "\n\n", " \n", "\t", "\n\n\n", "   ", "\n\t", " \n \n ", "", "\n\n\n\n  ",
-        "\n ", "\n      ", "\n   ",
+        "\n ", "\n      ", "\n   ", "\u{2005}", " \u{a0}", "\u{3000}", "\u{2028}", "\u{85}", "\u{205f} ", "\u{1680}\n", "\u{2009}",
     ];
     t.pick(WS).to_string()
 }
@@ -120,7 +120,17 @@ fn one_of(t: &mut Tape, src: &str, corpus: &Corpus, which: usize) -> String {
         // respell a space
         0 => {
             if let Some(i) = pick_idx(t, &flat, |f| f.node.kind() == K::Space) {
-                let ws = whitespace(t);
+                let mut ws = whitespace(t);
+                // in markup only space, tab and newlines are blanks: any other White_Space character is text
+                // there, and at the end of a line the final strip pass removes it (finding R72) -- kept rare
+                // so that the search is not spent on it
+                let markup = matches!(flat[i].parent, Some(K::Markup | K::Heading | K::ListItem | K::EnumItem | K::TermItem));
+                if markup && !ws.is_ascii() && !t.chance(8) {
+                    ws.retain(|c| c.is_ascii());
+                    if ws.is_empty() {
+                        ws.push(' ');
+                    }
+                }
                 return splice(src, flat[i].start, flat[i].end, &ws);
             }
         }
